@@ -33,8 +33,8 @@ def predicate(function: Callable[..., T]) -> Callable[..., SymbolicExpression[T]
     @wraps(function)
     def wrapper(*args, **kwargs) -> Optional[Any]:
         if in_symbolic_mode():
-            function_arg_names = [pname for pname, p in inspect.signature(function).parameters.items()
-                                  if p.default == inspect.Parameter.empty]
+            # positional arguments bind the parameters in order, also those that have a default
+            function_arg_names = list(inspect.signature(function).parameters)
             kwargs.update(dict(zip(function_arg_names, args)))
             return Variable(function.__name__, function, _kwargs_=kwargs,
                             _predicate_type_=PredicateType.DecoratedMethod)
